@@ -75,12 +75,21 @@ class C07(GenCheck):
                 stmts.append(["set", ["v", name], [rng.choice(RINGOPS), ["v", name], ["c", rng.choice([1, 3, 0x80, 0xff, 0x1234, -1, -7])]]])
             else:
                 stmts.append([rng.choice(["iadd", "isub"]), ["v", name], ["c", rng.choice([1, 2, 5, 255, 1000, 70000])]])
+        reginit = {}
+        if rng.random() < 0.2:
+            # a register stored into packet variables, the SAME register several times (the store must not change it)
+            no = rng.choice([2, 3, 4, 5])
+            reginit[no] = rng.choice([0x1122334455667788, 0x4a26, 0x80000000, 0xfffffffe, rng.randrange(2 ** 64), rng.randrange(2 ** 16)])
+            for _ in range(rng.randint(2, 3)):
+                stmts.insert(rng.randrange(len(stmts) + 1), ["set", ["v", rng.choice(pvars)[0]], ["r", "r", no]])
         need = max(p + dsl.fmt_size(f) for _, p, f in pvars)
         L = rng.choice([G - 2, G - 1, G, G, G + 1, G + 1, G + 2, G + 9, need - 1, need, 0, 64, 100])
         L = max(L, 0)
         r = rng.random()
         packet = bytes(rng.choice([0, 0xff, 0x80, 0x7f, rng.randrange(256)]) if r < 0.3 else rng.randrange(256) for _ in range(L))
         case = {"G": G, "decls": decls, "values": values, "stmts": stmts, "packet": packet.hex(), "xdp_min": G}
+        if reginit:
+            case["reginit"] = reginit
         if rng.random() < 0.12:
             # the statements from position `at` on sit in a second size guard; r9 (the packet base of the first guard) has been
             # used as an ordinary register in between
@@ -91,6 +100,10 @@ class C07(GenCheck):
         return [self.make_case(self.rng) for _ in range(500 if self.tier == "quick" else 8000)]
 
     def stmts(self, case):
+        pre = [["set", ["r", "r", int(no)], ["c", v]] for no, v in sorted(case.get("reginit", {}).items())]
+        return pre + self.stmts_(case)
+
+    def stmts_(self, case):
         sec = case.get("second")
         if sec:
             return ([["set", ["v", "ran"], ["c", 1]]] + case["stmts"][:sec["at"]]
@@ -122,6 +135,9 @@ class C07(GenCheck):
         e = s[2]
         if e[0] == "c":
             ce = f"(PConst {cz(e[1])})"
+        elif e[0] == "r":
+            # a register holds the constant it was loaded with: storing it is storing that constant
+            ce = f"(PConst {cz(case['reginit'][e[2]] if e[2] in case['reginit'] else case['reginit'][str(e[2])])})"
         elif e[0] == "v":
             ce = f"(PLeaf {self.cloc(case, e[1])})"
         else:
@@ -137,7 +153,7 @@ class C07(GenCheck):
             l1 = clist([self.cstmt(case, s) for s in [["set", ["v", "ran"], ["c", 1]]] + case["stmts"][:sec["at"]]])
             l2 = clist([self.cstmt(case, s) for s in case["stmts"][sec["at"]:]])
             return (f"(run2 {cz(case['G'])} {l1} {cz(sec['G2'])} {l2} {ebpf_exec.cbytes(case['packet'])} {ebpf_exec.cbytes(case['_init'][0])})")
-        stmts = clist([self.cstmt(case, s) for s in self.stmts(case)])
+        stmts = clist([self.cstmt(case, s) for s in self.stmts_(case)])
         return f"(run {cz(case['G'])} {stmts} {ebpf_exec.cbytes(case['packet'])} {ebpf_exec.cbytes(case['_init'][0])})"
 
     def model_value(self, case, o):
@@ -182,6 +198,9 @@ class C07(GenCheck):
         def ev(x):
             if x[0] == "c":
                 return x[1]
+            if x[0] == "r":
+                ri = case["reginit"]
+                return ri[x[2]] if x[2] in ri else ri[str(x[2])]
             if x[0] == "v":
                 return pget(x[1]) if isinstance(fm[x[1]], tuple) else loc[x[1]]
             a, b = ev(x[1]), ev(x[2])
